@@ -650,7 +650,20 @@ pub fn gen_forest(rng: &mut Rng, cat: &mut Catalogue, cfg: &GenCfg) -> Forest {
                     let t = *rng.pick(&BINARY_TYPES[..35]);
                     if t == VariantType::Color3uint8 && !rng.chance(10) { VariantType::Color3 } else { t }
                 };
-                let name = unknown_prop_name(t, rng.below(2));
+                // on a class the database does not know, sometimes a name that `Instance` itself declares (canonical or alias):
+                // the class being unknown, it is an unknown property like any other and must come back under its own name with
+                // its own value and type (a lookup that resolves Instance-level names before checking the class would not)
+                let instance_level: [(&str, VariantType); 8] = [
+                    ("Archivable", VariantType::Bool), ("archivable", VariantType::Bool), ("RobloxLocked", VariantType::Bool),
+                    ("SourceAssetId", VariantType::Int32), ("Tags", VariantType::BinaryString), ("DataCost", VariantType::Int32),
+                    ("Capabilities", VariantType::Int64), ("DefinesCapabilities", VariantType::Float32),
+                ];
+                let (name, t) = if !cat.db.classes.contains_key(class.as_str()) && rng.chance(20) {
+                    let (nm, ty) = instance_level[rng.below(8) as usize];
+                    (nm.to_string(), ty)
+                } else {
+                    (unknown_prop_name(t, rng.below(2)), t)
+                };
                 let ty = if t == VariantType::Enum { None } else { Some(t) };
                 let v = gen_prop_value(rng, ty, n);
                 class_cols.entry(class.clone()).or_default().push((name.clone(), ty));
